@@ -219,7 +219,7 @@ def _run(prop, tier, seed, a, t0):
     natives = [n for n in api.NATIVES if prop in n.prop and (tier == "thorough" or not n.thorough_only)]
     for nt in natives:
         tn = time.time()
-        args = [tier, str(seed)]
+        args = [tier, str(seed), prop]
         rc, out, err = run_native(os.path.join(VERIF, nt.script), args, timeout=nt.timeout if tier == "quick" else nt.timeout * 6)
         info = {"name": nt.name, "script": nt.script, "bound": nt.bound, "rc": rc, "wall_s": round(time.time() - tn, 2)}
         m = re.search(r"^BOUNDED-RESULT (.*)$", out, re.M)
